@@ -236,32 +236,33 @@ DecomposeVerdict(ev) ==
         IN IF QLe(QAbs(detN), QMulInt(QFromD(Eps(f)), 2)) THEN VKnown("KD-C09-decompose-rejects-small-det") ELSE VBad
     ELSE IF ~(AllFin(ev.S) /\ AllFin(ev.O) /\ AllFin(ev.T) /\ AllFin(ev.K) /\ AllFin(ev.P)) THEN VBad
     ELSE
-    LET Mo == DMat(4, 4, DSeq(ev.a[1]))
-        S == DSeq(ev.S) O == DSeq(ev.O) T == DSeq(ev.T) K == DSeq(ev.K) P == DSeq(ev.P)
-        Rd == DRecompose(S, O, T, K, P)
-        tol == DMul(EpsK(f, KRoundTrip), DMaxAbsM(Mo))
-        w == DAt(Mo, 4, 4)
-        same == DNearMat(Rd, Mo, tol)
-        \* recompose gives the w-normalised matrix  M / M[3][3]
-        normalised == \A i \in 1..16 : DNearAbs(DMul(Rd.e[i], w), Mo.e[i], tol)
-        rcOK == ev.rc = 0 \/ (/\ AllFin(ev.RC)
-                              /\ LET RC == DMat(4, 4, DSeq(ev.RC)) Ab == DRecomposeAbs(S, O, T, K, P)
-                                 IN \A i \in 1..16 : DNearAbs(RC.e[i], Rd.e[i], DMul(EpsK(f, KRecompose), Ab.e[i])))
-        unitQ == DNearAbs(DVDot(O, O), DOne, EpsK(f, 16))
-    IN IF ~(rcOK /\ unitQ) THEN VBad
-       ELSE IF ~DEq(w, DOne) THEN (IF same THEN VOk ELSE IF normalised THEN VKnown("KD-C09-decompose-normalises-w") ELSE VBad)
-       ELSE LET cs == CanonScale(PieceS(ev)) ck == CanonSkew(PieceS(ev), PieceK(ev))
-                pieces == /\ \A i \in 1..3 : DEq(T[i], DAt(Mo, 4, i))
-                          /\ \A i \in 1..3 : NearRel(QFromD(S[i]), cs[i], KPiece, QAbs(cs[i]), f)
-                          /\ \A i \in 1..3 : NearRel(QFromD(K[i]), ck[i], KPiece, QMax(QAbs(ck[i]), QOne), f)
-                          /\ (ev.mode = 0 => (DIsZero(P[1]) /\ DIsZero(P[2]) /\ DIsZero(P[3]) /\ DEq(P[4], DOne)))
-            IN VBool(same /\ pieces)
+    LET S == DSeq(ev.S) O == DSeq(ev.O) T == DSeq(ev.T) K == DSeq(ev.K) P == DSeq(ev.P)
+        Judge(v) ==
+            LET Mo == v[1] Rd == v[2] Ab == v[3] RC == v[4]
+                tol == DMul(EpsK(f, KRoundTrip), DMaxAbsM(Mo))
+                w == DAt(Mo, 4, 4)
+                same == DNearMat(Rd, Mo, tol)
+                \* recompose gives the w-normalised matrix  M / M[3][3]
+                normalised == \A i \in 1..16 : DNearAbs(DMul(Rd.e[i], w), Mo.e[i], tol)
+                rcOK == ev.rc = 0 \/ \A i \in 1..16 : DNearAbs(RC.e[i], Rd.e[i], DMul(EpsK(f, KRecompose), Ab.e[i]))
+                unitQ == DNearAbs(DVDot(O, O), DOne, EpsK(f, 16))
+            IN IF ~(rcOK /\ unitQ) THEN VBad
+               ELSE IF ~DEq(w, DOne) THEN (IF same THEN VOk ELSE IF normalised THEN VKnown("KD-C09-decompose-normalises-w") ELSE VBad)
+               ELSE LET cs == CanonScale(PieceS(ev)) ck == CanonSkew(PieceS(ev), PieceK(ev))
+                        pieces == /\ \A i \in 1..3 : DEq(T[i], DAt(Mo, 4, i))
+                                  /\ \A i \in 1..3 : NearRel(QFromD(S[i]), cs[i], KPiece, QAbs(cs[i]), f)
+                                  /\ \A i \in 1..3 : NearRel(QFromD(K[i]), ck[i], KPiece, QMax(QAbs(ck[i]), QOne), f)
+                                  /\ (ev.mode = 0 => (DIsZero(P[1]) /\ DIsZero(P[2]) /\ DIsZero(P[3]) /\ DEq(P[4], DOne)))
+                    IN VBool(same /\ pieces)
+    IN IF ev.rc = 1 /\ ~AllFin(ev.RC) THEN VBad
+       ELSE Bind(<< DMat(4, 4, DSeq(ev.a[1])), DRecompose(S, O, T, K, P), DRecomposeAbs(S, O, T, K, P),
+                    IF ev.rc = 1 THEN DMat(4, 4, DSeq(ev.RC)) ELSE DIdent4 >>, Judge)
 MissingVerdict(ev) == IF ev.fn = "recompose<double>" THEN VKnown("KD-C09-recompose-float-only") ELSE VBad
 
 \* ---------------------------------------------------------------- gtx/matrix_interpolation
 OnesBlock3 == BlockScale(MIdentity(4), 3)
 RotInput(f, ws, R3) ==         \* the upper 3x3 of the logged matrix is the rounding of the exact rotation, the last row is (0, 0, 0, 1)
-    /\ Len(ws) = 16 /\ AllFin(ws)
+    /\ Len(ws) = 16 /\ AllFin(ws) /\ R3.c = 3
     /\ \A c, r \in 1..3 : NearRel(QW(ws[(c - 1) * 4 + r]), MAt(R3, c, r), 1, QOne, f)
     /\ QIsZero(QW(ws[4])) /\ QIsZero(QW(ws[8])) /\ QIsZero(QW(ws[12])) /\ QEq(QW(ws[16]), QOne)
 AxisAngleVerdict(ev) ==
@@ -298,7 +299,7 @@ InterpolateVerdict(ev) ==
         amp == IF ev.hsn = 0 \/ ev.hcn = 0 THEN 1 ELSE (ev.hcd * ev.hcd) \div (2 * AbsI(ev.hsn * ev.hcn)) + 1
         kk == 32 + 16 * amp
         Half(sg) == MMulR(MRed(RotAxis3(ch, IF sg THEN sh ELSE QNeg(sh), u)), R1)
-        RotOK(E3) == \A c, r \in 1..3 : NearRel(QW(ev.r[(c - 1) * 4 + r]), MAt(E3, c, r), kk, QOne, f)
+        RotOK(E3) == E3.c = 3 /\ \A c, r \in 1..3 : NearRel(QW(ev.r[(c - 1) * 4 + r]), MAt(E3, c, r), kk, QOne, f)
         transOK == \A i \in 1..3 : LET a == m1[12 + i] b == m2[12 + i]
                                    IN NearRel(QW(ev.r[12 + i]), QAdd(a, QMul(delta, QSub(b, a))), 4, QAdd(QAbs(a), QAbs(b)), f)
         structOK == QIsZero(QW(ev.r[4])) /\ QIsZero(QW(ev.r[8])) /\ QIsZero(QW(ev.r[12])) /\ QEq(QW(ev.r[16]), QOne)
